@@ -155,6 +155,19 @@ def build(binary, tier):
         src = ("fn outer() { %s fn mid() { %s fn inner() { return (%s, %s); } return inner; } return mid(); }\n"
                "var g = outer(); var r = g(); print(r[0]); print(r[1]);" % (da, db, uses, last))
         count_case("captured variables", n, 256, src, [str(total), str(lastv)])
+    # captured variables that an intermediate function only RELAYS: `mid` itself uses none of them, but its two inner functions
+    # capture `a` locals of `host` and `n - a` locals of `outer` through it, so `mid` needs n captured variables while each inner
+    # function stays far below the limit
+    for n in (255, 256, 257, 262):
+        a = 200
+        b = n - a
+        da = " ".join("var h%d = %d;" % (i, i) for i in range(a))
+        db = " ".join("var o%d = %d;" % (i, 1000 + i) for i in range(b))
+        src = ("fn outer() { %s fn host() { %s fn mid() { fn first() { return %s; } fn second() { return [%s]; } return (first, second); } return mid(); } return host(); }\n"
+               "var p = outer(); print(p[0]()); print(p[1]());"
+               % (db, da, " + ".join("h%d" % i for i in range(a)), ", ".join("o%d" % i for i in range(b))))
+        count_case("captured variables relayed by an intermediate function", n, 256, src,
+                   [str(sum(range(a))), "[" + ", ".join(str(1000 + i) for i in range(b)) + "]"])
     # constants in one chunk
     if tier == "thorough":
         for n in (65534, 65535, 65536, 65537):
